@@ -147,7 +147,10 @@ def handle (op : String) (req : Json) : R Json := do
     -- hypotheses of the pixel theorems that the generator varies
     let k := xs.length
     let r0 := (filesT.head?.map (·.scans.length)).getD 0
-    let hypLayout := filesT.all (fun f => layoutB k f.scans f.profile && f.scans.length == r0)
+    let hypIdx := match xadd with
+      | none => true
+      | some (_, rows) => rows.all (fun a => decide (1 ≤ a.index ∧ a.index ≤ k))      -- hypothesis of `massInfo_spec`
+    let hypLayout := hypIdx && filesT.all (fun f => layoutB k f.scans f.profile && f.scans.length == r0)
     let hypCsv := csvShapeB filesT
     -- method file vs log
     let acqEq : Json := match xml, samples with
